@@ -83,6 +83,40 @@ def _rng_hit(f, v, bb, t, rp, is_clo):
     return False
 
 
+def _fill_until(prog, f, v, lp):
+    """`while vec.len() < n { ..; vec.push(x); }` with vec empty before the loop and exactly one push per iteration: the loop
+    runs n times.  Returns the term n, else None."""
+    from .lib import body_reach, is_call, site_bb
+    from .seq import _is_empty_ctor
+    from .guards import ret_writes
+    hdr_tests = [(e, fa) for (e, fa) in v.own_facts if e[0] in lp["body"] and e[1] not in lp["body"] and fa[0] == "cond" and fa[1] == "lt"]
+    exits = [(b, t) for b in lp["body"] for (t, _l) in f.succs()[b] if t not in lp["body"]]
+    if len(hdr_tests) != 1 or len({(b, t) for b, t in exits if f.reach(t) & {x for x in f.normal_blocks() if f.blocks[x].term["k"] == "return"}}) != 1:
+        return None
+    (e, fa) = hdr_tests[0]
+    if fa[4]:                      # leaves the loop when `len < n` is false
+        return None
+    ln, n = fa[2], fa[3]
+    if not (is_call(ln, name="len") and len(ln[2]) == 1) or n is None:
+        return None
+    vec = ln[2][0]
+    base = vec[1] if vec[0] == "mut" else vec
+    if not _is_empty_ctor(base):
+        return None
+    ops = [o for o in (vec[2] if vec[0] == "mut" else ()) if o[1] not in ("reserve",)]
+    if len(ops) != 1 or ops[0][1] != "push":
+        return None
+    pb = site_bb(ops[0][3], f)
+    if pb is None or pb not in lp["body"] or any(pb in o["body"] and o["body"] < lp["body"] for o in f.loops()):
+        return None
+    _, back = body_reach(f, lp, [lp["header"]], removed_blocks={pb})
+    if back:
+        return None                # an iteration can complete without pushing
+    if mentions(n, lambda s_: s_ == vec or s_ == base):
+        return None
+    return n
+
+
 def _trip(prog, f, v, bb):
     """multiplicity factors of block bb from the loops that contain it"""
     from .lib import loop_report, body_reach, strip_iter_calls
@@ -91,7 +125,10 @@ def _trip(prog, f, v, bb):
         if bb not in lp["body"]:
             continue
         it = lp["iter_term"]
-        if it is None:
+        fill = _fill_until(prog, f, v, lp) if it is None else None
+        if fill is not None:
+            out.append(("n", fill))        # `while v.len() < n { ..; v.push(x) }` from an empty v: n iterations
+        elif it is None:
             out.append(("retry", f.key))
         else:
             src = strip_iter_calls(it)
